@@ -16,6 +16,11 @@ def _quiet_unraisable(unraisable):
 
 def setup_process():
     install()
+    try:
+        import resource
+        resource.setrlimit(resource.RLIMIT_AS, (8 << 30, 8 << 30))   # a runaway must not eat the machine
+    except (ImportError, ValueError, OSError):
+        pass
     sys.unraisablehook = _quiet_unraisable
     gc.disable()
 
